@@ -14,7 +14,9 @@
 //	S4 every single-byte substitution (255 values) at every position of every representative
 //	   (thorough: the pointer area of all 512 triples)
 //	S5 bech32 text of every S1/S2 byte string under each of the 4 CIP-19 prefixes (+ "pool",
-//	   upper case, BIP-350 checksum constant, non-zero / excess padding); every single
+//	   upper case, BIP-350 checksum constant, non-zero / excess padding); for every S1/S6 address and
+//	   each of the 4 prefixes h the 13 derived prefixes h1x, h1, hx, h_, h_test, xh, 1h, x1h, h11h,
+//	   h1<each of the 4> with a checksum valid for that prefix, lower and upper case; every single
 //	   character substitution / deletion of representative texts
 //	S6 Byron addresses from the own encoder: type {0,1,2} x hash {A,B} x attributes
 //	   {none, derivation 12B/30B, magic 0/42/1097911063/2^32-1, derivation+magic} and invalid
@@ -401,6 +403,20 @@ func (w *W) textChecks(class string, raw []byte) {
 		w.checkText(class+"|bech32m|hrp="+h, "bech32m-constant", b32encode(h, d5, bech32mConst))
 	}
 	w.checkText(class+"|base58", "base58-of-bytes", b58encode(raw))
+	// prefixes that merely contain / start with / end with a CIP-19 prefix. bech32 splits at the LAST
+	// '1', so a prefix may itself contain '1' ("addr1x"): the text then begins with "addr1" although
+	// its prefix is not "addr". Checksums are valid for the prefix actually used.
+	for _, h := range hrps {
+		vars := []string{h + "1x", h + "1", h + "x", h + "_", h + "_test", "x" + h, "1" + h, "x1" + h, h + "11" + h}
+		for _, o := range hrps {
+			vars = append(vars, h+"1"+o)
+		}
+		for _, v := range vars {
+			t := b32encode(v, d5, bech32Const)
+			w.checkText(class+"|hrp-variant="+v, "hrp-variant", t)
+			w.checkText(class+"|HRP-variant="+v, "hrp-variant-upper", strings.ToUpper(t))
+		}
+	}
 }
 
 func selfTest() {
